@@ -446,6 +446,52 @@ def _sealed_rule(chk, prog):
     chk.floor(rule, 5, n)
 
 
+def _structfill_rule(chk, prog):
+    """A struct's slot array is canonical only because every pair goes in through janet_struct_put's sorted insertion.
+    Outside struct.c nobody may write the slots of a struct under construction directly (element stores, memcpy of a
+    table's buckets): a table's layout depends on insertion history, a struct's must not."""
+    rule = "C03-STRUCTFILL"
+    chk.rule(rule, "storage obtained from janet_struct_begin is filled only through janet_struct_put outside struct.c")
+    n = 0
+    for fn in prog.all_funcs():
+        if fn.tu.name == "struct.c":
+            continue
+        vars_ = set()
+        for x in fn.nodes:
+            tgt = rhs = None
+            if x.k == "vardecl" and x.kids:
+                tgt, rhs = x.name, strip_casts(x.kids[0])
+            elif x.k == "asg" and x.op == "=" and is_ref(x.kids[0]):
+                tgt, rhs = x.kids[0].name, strip_casts(x.kids[1])
+            if tgt and rhs is not None and rhs.k == "call" and rhs.callee == "janet_struct_begin":
+                vars_.add(tgt)
+        if not vars_:
+            continue
+        chk.analysed(fn)
+        for v in sorted(vars_):
+            n += 1
+            chk.instance(rule)
+            bad = None
+            for x in fn.nodes:
+                if x.k == "asg" and x.kids[0].k in ("sub", "mem"):
+                    base = x.kids[0]
+                    while base.k in ("sub", "mem", "cast") or (base.k == "un" and base.op == "*"):
+                        base = base.kids[0]
+                    # header accessors (janet_struct_proto ...) go through a cast of the pointer, not through the slots
+                    if is_ref(base, v) and not any(x.kids[0].in_macro(m) for m in ("janet_struct_proto", "janet_struct_hash", "janet_struct_length", "janet_struct_capacity", "janet_struct_head")):
+                        bad = x
+                if x.k == "call" and x.callee in ("memcpy", "memmove", "safe_memcpy", "memset") and x.args and \
+                        any(is_ref(y, v) for y in x.args[0].walk()):
+                    bad = x
+            if bad is not None:
+                chk.violation(rule, fn.tu.name, fn.name, "raw-fill:%s" % v, bad.loc,
+                              "`%s` writes the slots of a struct under construction directly instead of through janet_struct_put: the "
+                              "layout then reflects the source's order, and structs with equal content stop being equal" % bad.text()[:70])
+            else:
+                chk.ok(rule, "%s: `%s` filled through janet_struct_put only" % (fn.name, v))
+    chk.floor(rule, 6, n)
+
+
 def run(chk):
     prog = Program.load("default")
     _tombstone_rule(chk, prog)
@@ -456,3 +502,4 @@ def run(chk):
     _negzero_rule(chk, prog)
     _canon_rule(chk, prog)
     _sealed_rule(chk, prog)
+    _structfill_rule(chk, prog)
